@@ -13,6 +13,42 @@ outside /repo and /verif; nothing of cutplace is executed.
 """
 
 BENIGN = [
+    ("fields: pure memo of compiled expressions keyed by the whole input", "cutplace/fields.py",
+     'class RegExFieldFormat(AbstractFieldFormat):\n    """\n    Field format accepting values that match a specified regular expression.\n    """\n\n    def __init__(self, field_name, is_allowed_to_be_empty, length, rule, data_format):\n        super().__init__(field_name, is_allowed_to_be_empty, length, rule, data_format, empty_value="")\n        try:\n            self.regex = re.compile(rule, re.IGNORECASE | re.MULTILINE)\n',
+     '_EXPRESSION_TO_REGEX_MAP = {}\n\n\ndef _compiled_expression(expression):\n    result = _EXPRESSION_TO_REGEX_MAP.get(expression)\n    if result is None:\n        result = re.compile(expression, re.IGNORECASE | re.MULTILINE)\n        _EXPRESSION_TO_REGEX_MAP[expression] = result\n    return result\n\n\nclass RegExFieldFormat(AbstractFieldFormat):\n    """\n    Field format accepting values that match a specified regular expression.\n    """\n\n    def __init__(self, field_name, is_allowed_to_be_empty, length, rule, data_format):\n        super().__init__(field_name, is_allowed_to_be_empty, length, rule, data_format, empty_value="")\n        try:\n            self.regex = _compiled_expression(rule)\n'),
+    ("raw rows: rows passed on as copies from a generator", "cutplace/validio.py",
+     """            return rowio.excel_rows(self._source_data_stream_or_path, data_format.sheet)
+        elif format == data.FORMAT_DELIMITED:""",
+     """            return (list(row) for row in rowio.excel_rows(self._source_data_stream_or_path, data_format.sheet))
+        elif format == data.FORMAT_DELIMITED:"""),
+    ("rows: first data row computed once", "cutplace/validio.py",
+     """        header_row_count = self._cid.data_format.header
+        for row_count, row in enumerate(self._raw_rows(), 1):
+            try:
+                is_after_header_row = row_count > header_row_count""",
+     """        header_row_count = self._cid.data_format.header
+        first_data_row = header_row_count + 1
+        for row_count, row in enumerate(self._raw_rows(), 1):
+            try:
+                is_after_header_row = row_count >= first_data_row"""),
+    ("process: data files by index", "cutplace/applications.py",
+     """        for data_path in cutplace_app.data_paths:
+            try:
+                cutplace_app.validate(data_path)""",
+     """        for data_path_index in range(len(cutplace_app.data_paths)):
+            data_path = cutplace_app.data_paths[data_path_index]
+            try:
+                cutplace_app.validate(data_path)"""),
+    ("ranges: write-only statistics at module level", "cutplace/ranges.py",
+     """def code_for_number_token(name, value, location):""",
+     """_CONVERTED_NUMBER_TOKENS = []
+
+
+def _count_number_token(value):
+    _CONVERTED_NUMBER_TOKENS.append(value)
+
+
+def code_for_number_token(name, value, location):"""),
     ("rows: rename locals", "cutplace/validio.py",
      """                is_after_header_row = row_count > header_row_count
                 is_before_validate_until = (self._validate_until is None) or (row_count <= self._validate_until)
